@@ -163,6 +163,12 @@ func c09() {
 		plans = append(plans, c09Plan{desc: fmt.Sprintf("injected positive seccomp(2) return (thread id) flags=%#x", fl), threads: 2, strace: true, inject: []string{"-e", "inject=seccomp:retval=4242"},
 			calls: []vlib.LoadCall{{Thread: 1, Op: "load", Flags: fl, NNP: true, Policy: "valid0"}}})
 	}
+	// every magnitude a thread id can have (pid_max goes up to 2^22 on 64-bit kernels; the return value is a long)
+	for k, tid := range []int64{1, 2, 299, 32767, 32768, 32769, 65535, 65536, 70000, 1 << 20, 4194303, 4194304, 4194305, 1 << 24, 1<<30 + 7, 1<<31 - 1} {
+		fl := []uint32{flagTSync, flagTSync | flagLog, flagTSync | 4}[k%3]
+		plans = append(plans, c09Plan{desc: fmt.Sprintf("injected positive seccomp(2) return %d (thread id) flags=%#x", tid, fl), threads: 2, strace: true, inject: []string{"-e", fmt.Sprintf("inject=seccomp:retval=%d", tid)},
+			calls: []vlib.LoadCall{{Thread: 1, Op: "load", Flags: fl, NNP: true, Policy: "valid0"}, {Thread: 0, Op: "load", Flags: fl, NNP: false, Policy: "valid1"}}})
+	}
 	for _, errno := range []string{"EINVAL", "EPERM", "ENOSYS", "EACCES"} {
 		plans = append(plans, c09Plan{desc: "injected prctl(2) failure " + errno, threads: 2, strace: true, inject: []string{"-e", "inject=prctl:error=" + errno},
 			calls: []vlib.LoadCall{{Thread: 1, Op: "load", Flags: 0, NNP: true, Policy: "valid0"}, {Thread: 0, Op: "load", Flags: flagTSync, NNP: true, Policy: "valid1"}}})
